@@ -393,6 +393,24 @@ func TestC13HostBinds(t *testing.T) {
 				if err == nil {
 					conn = pcn.(vnet.UDPConnLike)
 				}
+			case "Dial":
+				// source address chosen by the stack: any own eth0 address, port 0
+				remote = proberAddr
+				var nc net.Conn
+				nc, err = host.Dial("udp", proberAddr.String())
+				if err == nil {
+					conn = nc.(vnet.UDPConnLike)
+					la := conn.LocalAddr().(*net.UDPAddr)
+					if !contains(own, la.IP.String()) {
+						t.Fatalf("C13: Dial bound the socket to %s, which is not an address of the host %v", la.IP, own)
+					}
+					modelIP, ip = la.IP.String(), la.IP.String()
+					// the conflict rule is evaluated for the chosen address below (port 0 path)
+				} else {
+					modelIP, ip = own[0], own[0]
+				}
+				port = 0
+				c.Label("bind/dial")
 			case "DialUDP":
 				remote = proberAddr
 				var uc interface{}
@@ -461,14 +479,16 @@ func TestC13HostBinds(t *testing.T) {
 		}
 
 		// drain returns what every open socket has received
-		drain := func() map[int][]string {
+		drain := func(probeSrc string) map[int][]string {
 			res := map[int][]string{}
 			for _, s := range open {
 				for s.conn.VerifQueued() > 0 {
 					buf := make([]byte, 200)
-					wait := time.Second
-					if s.remote != nil {
-						wait = 3 * time.Millisecond // a connected socket silently discards foreign datagrams and keeps waiting
+					wait := 5 * time.Second
+					if s.remote != nil && s.remote.String() != probeSrc {
+						// a connected socket silently discards a datagram of another source and
+						// keeps waiting: only then a short deadline (the read is expected to time out)
+						wait = 3 * time.Millisecond
 					}
 					_ = s.conn.SetReadDeadline(time.Now().Add(wait))
 					n, _, err := s.conn.ReadFrom(buf)
@@ -526,7 +546,11 @@ func TestC13HostBinds(t *testing.T) {
 					}
 				}
 			}
-			got := drain()
+			probeSrc := proberAddr.String()
+			if ip == "127.0.0.1" {
+				probeSrc = own[0] + ":4999" // the sentinel is bound to a specific address
+			}
+			got := drain(probeSrc)
 			c.Op("probe %s:%d", ip, port)
 			t.Logf("probe %s:%d -> received by %v (model: %v)", ip, port, got, target)
 			if ip == own[0] && port == 4999 {
@@ -593,7 +617,7 @@ func TestC13HostBinds(t *testing.T) {
 		for i := 0; i < steps; i++ {
 			switch op := rapid.IntRange(0, 99).Draw(t, "op"); {
 			case op < 45:
-				how := rapid.SampledFrom([]string{"ListenUDP", "ListenUDP", "ListenPacket", "DialUDP"}).Draw(t, "how")
+				how := rapid.SampledFrom([]string{"ListenUDP", "ListenUDP", "ListenPacket", "DialUDP", "Dial"}).Draw(t, "how")
 				ip := genIP()
 				if how == "ListenPacket" && ip == "" {
 					ip = "0.0.0.0"
